@@ -1,13 +1,15 @@
 /-
   C13 — metrics: precision / recall / F-beta and their averages are finite and lie in [0,1];
   calibration (perfect / no true positive); accuracy; the whitespace-correction counts are the set
-  comparison of the two operation sets; pair counting; spelling counts calibration (fn).
+  comparison of the two operation sets; pair counting; spelling counts calibration (tp, fp, fn; also for every
+  admissible set of sub-results).
   Model: `Tu.f1`, `Tu.microF1`, `Tu.seqAvgF1`, `Tu.accuracy`, `Tu.countTpFpFn`, `Tu.wsCounts`,
   `Tu.spellCounts` (Model/Metrics.lean).  `Q.unit`, `Q.isOne`, `Q.isZero` are in Lemmas/MetricsL.lean.
 -/
 import TuModel.Lemmas.MetricsL
 import TuModel.Lemmas.GroupWordsL
 import TuModel.Lemmas.GroupWordsWithL
+import TuModel.Lemmas.SpellCalibL
 import TuModel.Props.C10
 import TuModel.Props.C18
 namespace Tu.C13
@@ -272,6 +274,140 @@ example : scriptAccept { swap := false, sid := true } [[98], [98], sp, [98]] [[9
       some [(.replace, 0, 1), (.replace, 0, 1), (.delete, 2, 2)] ∧
     groupWordsWith [(.replace, 0, 1), (.replace, 0, 1), (.delete, 2, 2)]
       [[98], [98], sp, [98]] [[97], [97], [98], [98]] [0] = some [1, 0] := by decide
+
+/-! ### Priority 4 (continued) — spelling counts calibration: the remaining clauses
+
+`spellCounts_pred_eq_target_fn` above is the "no false negatives" clause.  Here: an unchanged prediction has no
+true positive; a prediction equal to the target has no false positive; and the relational forms (for every
+admissible set of sub-results).  Helper lemmas: Lemmas/SpellCalibL.lean. -/
+
+/-- relational form — unchanged prediction: zero true positives, when the SAME matching was observed for the two
+calls `match_words(input, target)` and `match_words(prediction, target)` (they are the same call) -/
+theorem spellCountsWith_pred_eq_input_tp (i t : List (List Nat)) (sub : SpellSub) (hm : sub.mit = sub.mpt)
+    (c : Counts) (h : spellCountsWith i i t sub = some c) : c.tp = 0 :=
+  spellCountsWith_tp_zero i i t sub c h hm
+
+/-- the hypothesis `sub.mit = sub.mpt` is needed: input = prediction = `a`, target = `a a`; both `[(0,0)]` and
+`[(0,1)]` are admissible longest matchings; taking one for (input, target) and the other for (prediction, target)
+reports the second target word as misspelled AND restored -/
+example :
+    spellSubOk [[97]] [[97]] [[97], sp, [97]] { mit := [(0, 0)], mip := [(0, 0)], mpt := [(0, 1)], ops := [] } = true ∧
+    spellCountsWith [[97]] [[97]] [[97], sp, [97]] { mit := [(0, 0)], mip := [(0, 0)], mpt := [(0, 1)], ops := [] } =
+      some ⟨false, 1, 0, 0⟩ := by decide
+
+/-- unchanged prediction: zero true positives (the function itself: the two calls coincide, so `restored` is
+exactly the complement of `misspelled`) -/
+theorem spellCounts_pred_eq_input_tp (i t : List (List Nat)) (c : Counts)
+    (h : spellCounts i i t = some c) : c.tp = 0 := by
+  obtain ⟨mit, mip, mpt, ops, h1, _, h3, _, hw⟩ := spellCounts_some_with i i t c h
+  rw [h1] at h3
+  cases h3
+  exact spellCountsWith_tp_zero _ _ _ _ c hw rfl
+
+/-- non-vacuity: input = prediction `a b`, target `a c`: the misspelled word is missed (fn = 1), tp = 0 -/
+example : spellCounts [[97], sp, [98]] [[97], sp, [98]] [[97], sp, [99]] = some ⟨false, 0, 0, 1⟩ := by decide
+example : spellCountsWith [[97], sp, [98]] [[97], sp, [98]] [[97], sp, [99]]
+    { mit := [(0, 0)], mip := [(0, 0), (1, 1)], mpt := [(0, 0)], ops := [] } = some ⟨false, 0, 0, 1⟩ := by decide
+
+/-- the prediction/target matching of an admissible sub-result set -/
+theorem spellSubOk_mpt (i p t : List (List Nat)) (sub : SpellSub) (hs : spellSubOk i p t sub = true) :
+    matchAccept (splitAsciiWs p.flatten) (splitAsciiWs t.flatten) sub.mpt = true := by
+  unfold spellSubOk at hs
+  simp only [Bool.and_eq_true] at hs
+  exact hs.1.2
+
+/-- an admissible matching of (target, target) is the identity matching -/
+theorem spellSubOk_mpt_identity (i t : List (List Nat)) (sub : SpellSub) (hs : spellSubOk i t t sub = true) :
+    sub.mpt = (List.range (splitAsciiWs t.flatten).length).map (fun k => (k, k)) :=
+  matchAccept_self_eq _ _ (spellSubOk_mpt i t t sub hs)
+
+/-- relational form — prediction equal to the target: no false negatives, for EVERY admissible sub-result set -/
+theorem spellCountsWith_pred_eq_target_fn (i t : List (List Nat)) (sub : SpellSub)
+    (hs : spellSubOk i t t sub = true) (c : Counts) (h : spellCountsWith i t t sub = some c) : c.fn = 0 :=
+  spellCountsWith_fn_zero i t t sub c h (matchAccept_self_full _ _ (spellSubOk_mpt i t t sub hs)).2
+
+/-- relational form — prediction equal to the target: no false positives, for EVERY admissible sub-result set;
+stated with what the proof uses of the texts: `split_ascii_whitespace` finds no more words in the input than
+`word_boundaries`, and no fewer in the target -/
+theorem spellCountsWith_pred_eq_target_fp_of_counts (i t : List (List Nat))
+    (hi : (splitAsciiWs i.flatten).length ≤ (wordBoundaries i).length)
+    (ht : (wordBoundaries t).length ≤ (splitAsciiWs t.flatten).length)
+    (sub : SpellSub) (hs : spellSubOk i t t sub = true) (c : Counts)
+    (h : spellCountsWith i t t sub = some c) : c.fp = 0 :=
+  spellCountsWith_fp_zero i t t sub c h
+    (fun k hk => (matchAccept_self_full _ _ (spellSubOk_mpt i t t sub hs)).1 k (by omega)) hi
+
+/-- … in particular for a whitespace-clean input without mixed clusters (the property's domain: `unmixed`, which
+holds in code-point mode) and a whitespace-clean target -/
+theorem spellCountsWith_pred_eq_target_fp (i t : List (List Nat)) (hi : CleanB i = true) (hu : unmixed i = true)
+    (ht : CleanB t = true) (sub : SpellSub) (hs : spellSubOk i t t sub = true) (c : Counts)
+    (h : spellCountsWith i t t sub = some c) : c.fp = 0 :=
+  spellCountsWith_pred_eq_target_fp_of_counts i t (Nat.le_of_eq (wordBoundaries_length_split hi hu).symm)
+    (wordBoundaries_length_le ht) sub hs c h
+
+/-- code-point mode -/
+theorem spellCountsWith_pred_eq_target_fp_singletons (i t : List (List Nat)) (hi : CleanB i = true)
+    (hu : singletons i = true) (ht : CleanB t = true) (sub : SpellSub) (hs : spellSubOk i t t sub = true)
+    (c : Counts) (h : spellCountsWith i t t sub = some c) : c.fp = 0 :=
+  spellCountsWith_pred_eq_target_fp i t hi (unmixed_of_singletons hu) ht sub hs c h
+
+/-- prediction equal to the target: no false positives (the function itself), under the word-count conditions -/
+theorem spellCounts_pred_eq_target_fp_of_counts (i t : List (List Nat))
+    (hi : (splitAsciiWs i.flatten).length ≤ (wordBoundaries i).length)
+    (ht : (wordBoundaries t).length ≤ (splitAsciiWs t.flatten).length)
+    (c : Counts) (h : spellCounts i t t = some c) : c.fp = 0 := by
+  obtain ⟨mit, mip, mpt, ops, h1, h2, h3, h4, hw⟩ := spellCounts_some_with i t t c h
+  exact spellCountsWith_pred_eq_target_fp_of_counts i t hi ht _ (spellSubOk_own i t t mit mip mpt ops h1 h2 h3 h4) c hw
+
+/-- **prediction equal to the target: no false positives** — whitespace-clean input without mixed clusters,
+whitespace-clean target.  (`CleanB i` and `CleanB t` alone do NOT suffice, and each of the three hypotheses is
+needed: see the examples below.) -/
+theorem spellCounts_pred_eq_target_fp (i t : List (List Nat)) (hi : CleanB i = true) (hu : unmixed i = true)
+    (ht : CleanB t = true) (c : Counts) (h : spellCounts i t t = some c) : c.fp = 0 :=
+  spellCounts_pred_eq_target_fp_of_counts i t (Nat.le_of_eq (wordBoundaries_length_split hi hu).symm)
+    (wordBoundaries_length_le ht) c h
+
+/-- code-point mode -/
+theorem spellCounts_pred_eq_target_fp_singletons (i t : List (List Nat)) (hi : CleanB i = true)
+    (hu : singletons i = true) (ht : CleanB t = true) (c : Counts) (h : spellCounts i t t = some c) : c.fp = 0 :=
+  spellCounts_pred_eq_target_fp i t hi (unmixed_of_singletons hu) ht c h
+
+/-- both clauses together: a prediction equal to the target has no false positives or negatives -/
+theorem spellCounts_pred_eq_target (i t : List (List Nat)) (hi : CleanB i = true) (hu : unmixed i = true)
+    (ht : CleanB t = true) (c : Counts) (h : spellCounts i t t = some c) : c.fp = 0 ∧ c.fn = 0 :=
+  ⟨spellCounts_pred_eq_target_fp i t hi hu ht c h, spellCounts_pred_eq_target_fn i t c h⟩
+
+theorem spellCountsWith_pred_eq_target (i t : List (List Nat)) (hi : CleanB i = true) (hu : unmixed i = true)
+    (ht : CleanB t = true) (sub : SpellSub) (hs : spellSubOk i t t sub = true) (c : Counts)
+    (h : spellCountsWith i t t sub = some c) : c.fp = 0 ∧ c.fn = 0 :=
+  ⟨spellCountsWith_pred_eq_target_fp i t hi hu ht sub hs c h, spellCountsWith_pred_eq_target_fn i t sub hs c h⟩
+
+/-- non-vacuity: input `a b`, prediction = target `a c`: one true positive, nothing else; and a case with a merge
+and a split (input `ab c`, prediction = target `a bc`): both input words changed, both correct -/
+example : CleanB [[97], sp, [98]] = true ∧ unmixed [[97], sp, [98]] = true ∧ CleanB [[97], sp, [99]] = true ∧
+    spellCounts [[97], sp, [98]] [[97], sp, [99]] [[97], sp, [99]] = some ⟨false, 1, 0, 0⟩ := by decide
+example : spellCounts [[97], [98], sp, [99]] [[97], sp, [98], [99]] [[97], sp, [98], [99]] =
+    some ⟨false, 2, 0, 0⟩ := by decide
+example :
+    spellSubOk [[97], sp, [98]] [[97], sp, [99]] [[97], sp, [99]]
+      { mit := [(0, 0)], mip := [(0, 0)], mpt := [(0, 0), (1, 1)], ops := [(.replace, 2, 2)] } = true ∧
+    spellCountsWith [[97], sp, [98]] [[97], sp, [99]] [[97], sp, [99]]
+      { mit := [(0, 0)], mip := [(0, 0)], mpt := [(0, 0), (1, 1)], ops := [(.replace, 2, 2)] } =
+      some ⟨false, 1, 0, 0⟩ := by decide
+
+/-- the hypotheses of the "no false positives" clause are needed (counterexamples in the model):
+* a whitespace-clean input with a MIXED cluster `a␣b` (one `word_boundaries` word, two `split_ascii_whitespace`
+  words; its second word is "changed" but belongs to no group);
+* a target that is not whitespace-clean (`a<NBSP>b`: two `word_boundaries` words, one `split_ascii_whitespace`
+  word, so the second predicted word is never matched);
+* an input without mixed clusters that is not whitespace-clean (`␣<NBSP>␣`: no `word_boundaries` word, one
+  `split_ascii_whitespace` word). -/
+example : CleanB [[97, 32, 98]] = true ∧ CleanB [[99]] = true ∧
+    spellCounts [[97, 32, 98]] [[99]] [[99]] = some ⟨false, 1, 1, 0⟩ := by decide
+example : CleanB [[99]] = true ∧ unmixed [[99]] = true ∧
+    spellCounts [[99]] [[97], [160], [98]] [[97], [160], [98]] = some ⟨false, 1, 1, 0⟩ := by decide
+example : unmixed [[32], [160], [32]] = true ∧ CleanB [[99]] = true ∧
+    spellCounts [[32], [160], [32]] [[99]] [[99]] = some ⟨false, 1, 1, 0⟩ := by decide
 
 /-! ### non-vacuity -/
 
